@@ -172,3 +172,407 @@ theorem append_cookie_separate_line (r : Resp κ) (a : Name) (v : String) (ha : 
 #print axioms get_after_append
 #print axioms extra_untouched_by_setHeaders
 end Hd
+
+/-! ## Round 1: emission, the cookie jar, and history-level statements -/
+namespace Hd
+variable {Name κ : Type} [DecidableEq κ]
+set_option linter.unusedSectionVars false
+
+def keys (m : List (κ × String)) : List κ := m.map (·.1)
+
+theorem keys_setKey_of_any (m : List (κ × String)) (k : κ) (v : String) (h : m.any (·.1 == k) = true) :
+    keys (setKey m k v) = keys m := by
+  unfold setKey keys
+  simp only [h, if_true, List.map_map]
+  apply List.map_congr_left
+  intro e _
+  simp only [Function.comp]
+  by_cases he : e.1 = k
+  · simp [he]
+  · simp [he]
+
+theorem keys_setKey_of_not_any (m : List (κ × String)) (k : κ) (v : String) (h : ¬ (m.any (·.1 == k) = true)) :
+    keys (setKey m k v) = keys m ++ [k] := by
+  unfold setKey keys
+  have h' : (m.any (·.1 == k)) = false := by
+    cases hh : m.any (·.1 == k) with
+    | false => rfl
+    | true => exact absurd hh h
+  simp [h']
+
+theorem not_mem_keys_of_not_any (m : List (κ × String)) (k : κ) (h : ¬ (m.any (·.1 == k) = true)) : k ∉ keys m := by
+  intro hk
+  unfold keys at hk
+  obtain ⟨e, he, hek⟩ := List.mem_map.mp hk
+  exact h (List.any_eq_true.mpr ⟨e, he, by simp [hek]⟩)
+
+theorem nodup_setKey (m : List (κ × String)) (k : κ) (v : String) (h : (keys m).Nodup) : (keys (setKey m k v)).Nodup := by
+  by_cases ha : m.any (·.1 == k) = true
+  · rw [keys_setKey_of_any m k v ha]; exact h
+  · rw [keys_setKey_of_not_any m k v ha]
+    rw [List.nodup_append]
+    refine ⟨h, by simp, ?_⟩
+    intro a ha' b hb
+    have : b = k := by simpa using hb
+    subst this
+    intro hab; subst hab
+    exact not_mem_keys_of_not_any m a ha ha'
+
+theorem mem_keys_setKey (m : List (κ × String)) (k k' : κ) (v : String) (h : k' ∈ keys (setKey m k v)) : k' ∈ keys m ∨ k' = k := by
+  by_cases ha : m.any (·.1 == k) = true
+  · rw [keys_setKey_of_any m k v ha] at h; exact Or.inl h
+  · rw [keys_setKey_of_not_any m k v ha] at h
+    simpa using h
+
+theorem keys_delKey_sublist (m : List (κ × String)) (k : κ) : (keys (delKey m k)).Sublist (keys m) := by
+  unfold keys delKey
+  exact List.Sublist.map _ List.filter_sublist
+
+theorem nodup_delKey (m : List (κ × String)) (k : κ) (h : (keys m).Nodup) : (keys (delKey m k)).Nodup :=
+  List.Nodup.sublist (keys_delKey_sublist m k) h
+
+
+/-! ### C15: well-formedness of the three stores is an invariant of every history; what is emitted -/
+variable (c : Cfg Name κ)
+
+/-- invariant: dict keys are distinct, no dict key is Set-Cookie, every raw extra line is a Set-Cookie line,
+    and the jar holds each cookie name once -/
+structure WF (r : Resp κ) : Prop where
+  nodup : (keys r.headers).Nodup
+  nocookie : c.cookie ∉ keys r.headers
+  extraCookie : ∀ e ∈ r.extra, e.1 = c.cookie
+  jarNodup : (keys r.cookies).Nodup
+
+theorem wf_empty : WF c ({} : Resp κ) := ⟨List.nodup_nil, by simp [keys], by simp, List.nodup_nil⟩
+
+theorem wf_setHeader (r r' : Resp κ) (a : Name) (v : String) (hw : WF c r) (h : setHeader c r a v = some r') : WF c r' := by
+  unfold setHeader at h; split at h
+  · cases h
+  · rename_i hn
+    injection h with h; subst h
+    refine ⟨nodup_setKey _ _ _ hw.nodup, ?_, hw.extraCookie, hw.jarNodup⟩
+    intro hm
+    rcases mem_keys_setKey _ _ _ _ hm with h1 | h1
+    · exact hw.nocookie h1
+    · exact hn h1.symm
+
+theorem wf_deleteHeader (r r' : Resp κ) (a : Name) (hw : WF c r) (h : deleteHeader c r a = some r') : WF c r' := by
+  unfold deleteHeader at h; split at h
+  · cases h
+  · injection h with h; subst h
+    exact ⟨nodup_delKey _ _ hw.nodup, fun hm => hw.nocookie ((keys_delKey_sublist _ _).subset hm), hw.extraCookie, hw.jarNodup⟩
+
+theorem wf_appendHeader (r : Resp κ) (a : Name) (v : String) (hw : WF c r) : WF c (appendHeader c r a v) := by
+  unfold appendHeader
+  split
+  · refine ⟨hw.nodup, hw.nocookie, ?_, hw.jarNodup⟩
+    intro e he
+    rcases List.mem_append.mp he with h1 | h1
+    · exact hw.extraCookie e h1
+    · have : e = (c.cookie, v) := by simpa using h1
+      rw [this]
+  · rename_i hn
+    have key : ∀ v', WF c { r with headers := setKey r.headers (c.norm a) v' } := by
+      intro v'
+      refine ⟨nodup_setKey _ _ _ hw.nodup, ?_, hw.extraCookie, hw.jarNodup⟩
+      intro hm
+      rcases mem_keys_setKey _ _ _ _ hm with h1 | h1
+      · exact hw.nocookie h1
+      · exact hn h1.symm
+    split
+    · exact key _
+    · exact key _
+
+theorem wf_setHeaders (items : List (Name × String)) : ∀ (r : Resp κ), WF c r → WF c (setHeaders c r items).1 := by
+  induction items with
+  | nil => intro r hw; exact hw
+  | cons it rest ih =>
+    intro r hw
+    obtain ⟨n, v⟩ := it
+    unfold setHeaders
+    cases hs : setHeader c r n v with
+    | none => exact hw
+    | some r' => exact ih r' (wf_setHeader c r r' n v hw hs)
+
+theorem not_mem_keys_delKey (m : List (κ × String)) (k : κ) : k ∉ keys (delKey m k) := by
+  intro hk
+  unfold keys delKey at hk
+  obtain ⟨e, he, hek⟩ := List.mem_map.mp hk
+  have := (List.mem_filter.mp he).2
+  simp [hek] at this
+
+theorem nodup_popAppend (m : List (κ × String)) (k : κ) (v : String) (h : (keys m).Nodup) :
+    (keys (delKey m k ++ [(k, v)])).Nodup := by
+  have hk : keys (delKey m k ++ [(k, v)]) = keys (delKey m k) ++ [k] := by simp [keys]
+  rw [hk, List.nodup_append]
+  refine ⟨nodup_delKey m k h, by simp, ?_⟩
+  intro a ha b hb
+  have : b = k := by simpa using hb
+  subst this
+  intro hab; subst hab
+  exact not_mem_keys_delKey m a ha
+
+theorem wf_setCookie (r : Resp κ) (n l : String) (hw : WF c r) : WF c (setCookie r n l) :=
+  ⟨hw.nodup, hw.nocookie, hw.extraCookie, nodup_popAppend _ _ _ hw.jarNodup⟩
+
+theorem wf_unsetCookie (r : Resp κ) (n l : String) (hw : WF c r) : WF c (unsetCookie r n l) :=
+  ⟨hw.nodup, hw.nocookie, hw.extraCookie, nodup_setKey _ _ _ hw.jarNodup⟩
+
+theorem wf_applyOp (r : Resp κ) (op : Op Name κ) (hw : WF c r) : WF c (applyOp c r op) := by
+  cases op with
+  | set n v =>
+    simp only [applyOp]
+    cases hs : setHeader c r n v with
+    | none => exact hw
+    | some r' => exact wf_setHeader c r r' n v hw hs
+  | append n v => exact wf_appendHeader c r n v hw
+  | delete n =>
+    simp only [applyOp]
+    cases hs : deleteHeader c r n with
+    | none => exact hw
+    | some r' => exact wf_deleteHeader c r r' n hw hs
+  | setMany items => exact wf_setHeaders c items r hw
+  | propSet k v =>
+    simp only [applyOp]
+    split
+    · exact hw
+    · rename_i hk
+      refine ⟨nodup_setKey _ _ _ hw.nodup, ?_, hw.extraCookie, hw.jarNodup⟩
+      intro hm
+      rcases mem_keys_setKey _ _ _ _ hm with h1 | h1
+      · exact hw.nocookie h1
+      · exact hk h1.symm
+  | propDel k =>
+    exact ⟨nodup_delKey _ _ hw.nodup, fun hm => hw.nocookie ((keys_delKey_sublist _ _).subset hm), hw.extraCookie, hw.jarNodup⟩
+  | cookie n l => exact wf_setCookie c r n l hw
+  | uncookie n l => exact wf_unsetCookie c r n l hw
+
+/-- **the invariant holds after every history** of set / append / delete / bulk set / typed property / cookie operations -/
+theorem wf_run (ops : List (Op Name κ)) : ∀ (r : Resp κ), WF c r → WF c (run c r ops) := by
+  induction ops with
+  | nil => intro r hw; exact hw
+  | cons op rest ih => intro r hw; exact ih _ (wf_applyOp c r op hw)
+
+/-- the emitted list is the dict, then the raw lines, then one line per cookie of the jar -/
+theorem emitAll_eq (r : Resp κ) : emitAll c r = r.headers ++ r.extra ++ r.cookies.map (fun p => (c.cookie, p.2)) := rfl
+
+/-- **each plain header is emitted exactly once**: the entries of the emitted list that are not Set-Cookie lines
+    are exactly the dict items, whose (normalised) names are pairwise distinct -/
+theorem emit_each_plain_header_once (r : Resp κ) (hw : WF c r) :
+    (emitAll c r).filter (fun e => e.1 != c.cookie) = r.headers ∧ (keys r.headers).Nodup := by
+  refine ⟨?_, hw.nodup⟩
+  unfold emitAll
+  rw [List.filter_append, List.filter_append]
+  have h1 : r.headers.filter (fun e => e.1 != c.cookie) = r.headers := by
+    rw [List.filter_eq_self]
+    intro e he
+    have : e.1 ≠ c.cookie := fun hh => hw.nocookie (hh ▸ List.mem_map.mpr ⟨e, he, rfl⟩)
+    simpa using this
+  have h2 : r.extra.filter (fun e => e.1 != c.cookie) = [] := by
+    rw [List.filter_eq_nil_iff]
+    intro e he
+    simp [hw.extraCookie e he]
+  have h3 : (r.cookies.map (fun p => (c.cookie, p.2))).filter (fun e => e.1 != c.cookie) = [] := by
+    rw [List.filter_eq_nil_iff]
+    intro e he
+    obtain ⟨p, _, hp⟩ := List.mem_map.mp he
+    simp [← hp]
+  rw [h1, h2, h3]; simp
+
+/-- **one separate Set-Cookie line per appended raw cookie and per cookie of the jar**, after the plain headers -/
+theorem one_line_per_cookie_and_per_raw_append (r : Resp κ) (hw : WF c r) :
+    (emitAll c r).filter (fun e => e.1 == c.cookie) = r.extra ++ r.cookies.map (fun p => (c.cookie, p.2)) ∧
+    ((emitAll c r).filter (fun e => e.1 == c.cookie)).length = r.extra.length + r.cookies.length := by
+  have hf : (emitAll c r).filter (fun e => e.1 == c.cookie) = r.extra ++ r.cookies.map (fun p => (c.cookie, p.2)) := by
+    unfold emitAll
+    rw [List.filter_append, List.filter_append]
+    have h1 : r.headers.filter (fun e => e.1 == c.cookie) = [] := by
+      rw [List.filter_eq_nil_iff]
+      intro e he
+      have : e.1 ≠ c.cookie := fun hh => hw.nocookie (hh ▸ List.mem_map.mpr ⟨e, he, rfl⟩)
+      simpa using this
+    have h2 : r.extra.filter (fun e => e.1 == c.cookie) = r.extra := by
+      rw [List.filter_eq_self]
+      intro e he
+      simp [hw.extraCookie e he]
+    have h3 : (r.cookies.map (fun p => (c.cookie, p.2))).filter (fun e => e.1 == c.cookie) = r.cookies.map (fun p => (c.cookie, p.2)) := by
+      rw [List.filter_eq_self]
+      intro e he
+      obtain ⟨p, _, hp⟩ := List.mem_map.mp he
+      simp [← hp]
+    rw [h1, h2, h3]; simp
+  refine ⟨hf, ?_⟩
+  rw [hf]; simp
+
+/-- both facts for the response reached by **any** history from the fresh response -/
+theorem emitted_after_history (ops : List (Op Name κ)) :
+    let r := run c ({} : Resp κ) ops
+    (emitAll c r).filter (fun e => e.1 != c.cookie) = r.headers ∧ (keys r.headers).Nodup ∧
+    ((emitAll c r).filter (fun e => e.1 == c.cookie)).length = r.extra.length + r.cookies.length ∧ (keys r.cookies).Nodup := by
+  intro r
+  have hw : WF c r := wf_run c ops _ (wf_empty c)
+  exact ⟨(emit_each_plain_header_once c r hw).1, hw.nodup, (one_line_per_cookie_and_per_raw_append c r hw).2, hw.jarNodup⟩
+
+/-- the plain calls and the typed properties never touch the cookie jar, and cookie calls never touch plain headers -/
+theorem jar_untouched_by_plain (r : Resp κ) (op : Op Name κ) (h : ∀ n l, op ≠ .cookie n l) (h' : ∀ n l, op ≠ .uncookie n l) :
+    (applyOp c r op).cookies = r.cookies := by
+  cases op with
+  | set n v =>
+    simp only [applyOp]
+    cases hs : setHeader c r n v with
+    | none => rfl
+    | some r' =>
+      unfold setHeader at hs; split at hs
+      · cases hs
+      · injection hs with hs; subst hs; rfl
+  | append n v =>
+    simp only [applyOp]; unfold appendHeader
+    split
+    · rfl
+    · split <;> rfl
+  | delete n =>
+    simp only [applyOp]
+    cases hs : deleteHeader c r n with
+    | none => rfl
+    | some r' =>
+      unfold deleteHeader at hs; split at hs
+      · cases hs
+      · injection hs with hs; subst hs; rfl
+  | setMany items =>
+    simp only [applyOp]
+    clear h h'
+    induction items generalizing r with
+    | nil => rfl
+    | cons it rest ih =>
+      obtain ⟨n, v⟩ := it
+      unfold setHeaders
+      cases hs : setHeader c r n v with
+      | none => rfl
+      | some r' =>
+        simp only
+        rw [ih r']
+        unfold setHeader at hs; split at hs
+        · cases hs
+        · injection hs with hs; subst hs; rfl
+  | propSet k v => simp only [applyOp]; split <;> rfl
+  | propDel k => rfl
+  | cookie n l => exact absurd rfl (h n l)
+  | uncookie n l => exact absurd rfl (h' n l)
+
+theorem plain_untouched_by_cookie (r : Resp κ) (n l : String) :
+    (setCookie r n l).headers = r.headers ∧ (setCookie r n l).extra = r.extra ∧
+    (unsetCookie r n l).headers = r.headers ∧ (unsetCookie r n l).extra = r.extra := ⟨rfl, rfl, rfl, rfl⟩
+
+/-- setting a cookie again replaces its single line; a new name adds exactly one line -/
+theorem unsetCookie_line (r : Resp κ) (n l : String) : lookup (unsetCookie r n l).cookies n = some l :=
+  lookup_setKey_self _ _ _
+
+/-- `set_cookie` drops whatever the jar held under that name and emits the new line last -/
+theorem setCookie_fresh_last (r : Resp κ) (n l : String) :
+    (setCookie r n l).cookies = delKey r.cookies n ++ [(n, l)] ∧ n ∉ keys (delKey r.cookies n) :=
+  ⟨rfl, not_mem_keys_delKey _ _⟩
+
+
+/-! ### C15: every history refines a map keyed by normalised names -/
+def absMap (r : Resp κ) : κ → Option String := fun k => lookup r.headers k
+def upd (f : κ → Option String) (k : κ) (v : Option String) : κ → Option String := fun k' => if k' = k then v else f k'
+
+def specMany (c : Cfg Name κ) (f : κ → Option String) : List (Name × String) → (κ → Option String)
+  | [] => f
+  | (n, v) :: rest => if c.norm n = c.cookie then f else specMany c (upd f (c.norm n) (some v)) rest
+
+/-- the specification: a map from normalised names to values; Set-Cookie is never a key; cookie calls do not touch it -/
+def specOp (c : Cfg Name κ) (f : κ → Option String) : Op Name κ → (κ → Option String)
+  | .set n v => if c.norm n = c.cookie then f else upd f (c.norm n) (some v)
+  | .append n v =>
+    if c.norm n = c.cookie then f
+    else upd f (c.norm n) (some (match f (c.norm n) with | some old => old ++ ", " ++ v | none => v))
+  | .delete n => if c.norm n = c.cookie then f else upd f (c.norm n) none
+  | .setMany items => specMany c f items
+  | .propSet k v => if k = c.cookie then f else upd f k (some v)
+  | .propDel k => upd f k none
+  | .cookie _ _ => f
+  | .uncookie _ _ => f
+
+theorem absMap_setKey (r : Resp κ) (k : κ) (v : String) :
+    absMap { r with headers := setKey r.headers k v } = upd (absMap r) k (some v) := by
+  funext k'
+  unfold absMap upd
+  by_cases hk : k' = k
+  · subst hk; simp [lookup_setKey_self]
+  · simp [hk, lookup_setKey_ne _ _ _ _ hk]
+
+theorem absMap_delKey (r : Resp κ) (k : κ) :
+    absMap { r with headers := delKey r.headers k } = upd (absMap r) k none := by
+  funext k'
+  unfold absMap upd
+  by_cases hk : k' = k
+  · subst hk; simp [lookup_delKey_self]
+  · simp [hk, lookup_delKey_ne _ _ _ hk]
+
+theorem absMap_setHeaders (items : List (Name × String)) : ∀ (r : Resp κ),
+    absMap (setHeaders c r items).1 = specMany c (absMap r) items := by
+  induction items with
+  | nil => intro r; rfl
+  | cons it rest ih =>
+    intro r
+    obtain ⟨n, v⟩ := it
+    unfold setHeaders specMany setHeader
+    by_cases hn : c.norm n = c.cookie
+    · simp [hn]
+    · simp only [hn, if_false]
+      rw [ih, absMap_setKey]
+
+theorem absMap_applyOp (r : Resp κ) (op : Op Name κ) : absMap (applyOp c r op) = specOp c (absMap r) op := by
+  cases op with
+  | set n v =>
+    simp only [applyOp, specOp, setHeader]
+    by_cases hn : c.norm n = c.cookie
+    · simp [hn]
+    · simp only [hn, if_false, Option.getD_some]; exact absMap_setKey r _ _
+  | append n v =>
+    simp only [applyOp, specOp, appendHeader]
+    by_cases hn : c.norm n = c.cookie
+    · simp only [hn, if_true]; rfl
+    · simp only [hn, if_false]
+      have : absMap r (c.norm n) = lookup r.headers (c.norm n) := rfl
+      rw [this]
+      cases lookup r.headers (c.norm n) with
+      | some old => exact absMap_setKey r _ _
+      | none => exact absMap_setKey r _ _
+  | delete n =>
+    simp only [applyOp, specOp, deleteHeader]
+    by_cases hn : c.norm n = c.cookie
+    · simp [hn]
+    · simp only [hn, if_false, Option.getD_some]; exact absMap_delKey r _
+  | setMany items => exact absMap_setHeaders c items r
+  | propSet k v =>
+    simp only [applyOp, specOp]
+    by_cases hk : k = c.cookie
+    · simp [hk]
+    · simp only [hk, if_false]; exact absMap_setKey r _ _
+  | propDel k => exact absMap_delKey r _
+  | cookie n l => rfl
+  | uncookie n l => rfl
+
+/-- **after any history, a read in any spelling returns what the case-insensitive map specification holds**
+    (and raises exactly for the spellings of Set-Cookie) -/
+theorem history_refines_ci_map (ops : List (Op Name κ)) (r : Resp κ) (b : Name) :
+    getHeader c (run c r ops) b =
+      if c.norm b = c.cookie then none else some (ops.foldl (specOp c) (absMap r) (c.norm b)) := by
+  have habs : ∀ (ops : List (Op Name κ)) (r : Resp κ), absMap (run c r ops) = ops.foldl (specOp c) (absMap r) := by
+    intro ops
+    induction ops with
+    | nil => intro r; rfl
+    | cons op rest ih =>
+      intro r
+      simp only [run, List.foldl_cons]
+      have := ih (applyOp c r op)
+      simp only [run] at this
+      rw [this, absMap_applyOp]
+  unfold getHeader
+  split
+  · rfl
+  · rw [← habs ops r]; rfl
+
+end Hd
